@@ -394,6 +394,11 @@ def run_core(rep, prop, tier, rng):
     sanitize = os.environ.get("VERIF_CPP_SANITIZE", "1") != "0"
     if prop == "C15":
         descs = descs + [d.permuted(rng) for d in descs]
+    if prop == "C18" and not PRIMER_BLOB:
+        pg = run_cases("harness.cpp", "w_gen_cpp", [{"text": PRIMER_TEXT}], timeout_s=300, chunk=1)[0]
+        if "ok" in pg:
+            PRIMER_BLOB.append(pg["ok"]["reflection"])
+        rep.hist("second_runtime_schema_in_process", "primer record loaded first" if PRIMER_BLOB else "not available")
     gens = run_cases("harness.cpp", "w_gen_cpp", [dict({"text": d.text()}, **({"primer": gen.kind_swapped_primer(d)} if k % 2 == 0 else {}))
                                                   for k, d in enumerate(descs)], timeout_s=300, chunk=1)
 
@@ -497,8 +502,18 @@ def first_error(out):
     return (out or "")[-600:]
 
 
+PRIMER_TEXT = 'version: "3"\n\nstruct PrimerMsg {\n    v @ 0: u8,\n}\nimpl can for PrimerMsg {\n    id: 7,\n    bus: "b",\n}\n'
+PRIMER_BLOB = []  # reflection record of PRIMER_TEXT, made once per run (C18)
+
+
 def talk(exe, refl_path, lines):
-    p = subprocess.run([exe, refl_path], input="\n".join(lines) + "\n", stdout=subprocess.PIPE, stderr=subprocess.PIPE,
+    # C18: a second reflection record, loaded into a first run-time CAN schema object that serves one frame before the schema
+    # under test is used in the same process (a gateway between two networks)
+    primer = os.path.join(os.path.dirname(refl_path), "primer.bin")
+    if PRIMER_BLOB and not os.path.exists(primer):
+        with open(primer, "wb") as f:
+            f.write(bytes(PRIMER_BLOB[0]))
+    p = subprocess.run([exe, refl_path] + ([primer] if PRIMER_BLOB else []), input="\n".join(lines) + "\n", stdout=subprocess.PIPE, stderr=subprocess.PIPE,
                        text=True, timeout=300, env=dict(os.environ, ASAN_OPTIONS="detect_leaks=0"))
     return p.returncode, [l for l in p.stdout.split("\n") if l != ""], p.stderr
 
